@@ -1,18 +1,26 @@
 import RpmVerif.Driver.C13
 /-! Driver: one request per line in (`<op> <args…> => <impl observation>`), one answer per line
-out (`<model observation> | <spec verdict> | <branch label>`). -/
+out (`<model observation> | <spec verdict> | <branch label>`).
+Each property contributes `Driver/Cxx.lean` with `ops : List String` and
+`handle : (op : String) → (args : List String) → (impl : String) → String`. -/
 open RpmVerif.Driver
+
+def handlers : List (List String × (String → List String → String → String)) := [
+  (C13.ops, C13.handle)
+]
 
 def dispatch (line : String) : String :=
   let (req, impl) := match line.splitOn " => " with
     | [r, i] => (r, i)
     | [r] => (r, "")
+    | r :: rest => (r, " => ".intercalate rest)
     | _ => ("", "")
   match (req.splitOn " ").filter (· ≠ "") with
   | [] => badReq "empty"
   | op :: args =>
-    if op ∈ ["vercmp", "evrcmp", "nevracmp", "evrstrcmp"] then C13.handle op args impl
-    else badReq ("unknown-op:" ++ op)
+    match handlers.find? (fun h => h.1.contains op) with
+    | some h => h.2 op args impl
+    | none => badReq ("unknown-op:" ++ op)
 
 partial def loop (h : IO.FS.Stream) (out : IO.FS.Stream) : IO Unit := do
   let line ← h.getLine
